@@ -159,7 +159,10 @@ class Effects:
             tags = self.summary.get(callee, set())
             if tags:
                 out.append(Event(bb, None, tags, [], "call " + callee, callee=callee, line=t.get("line")))
+        called_here = {callee for _, _, callee in self.callsites.get(body.path, [])}
         for bb, i, cp in self.closures.get(body.path, []):
+            if cp in called_here:
+                continue   # called directly in this body: its effects occur at the call sites, not where it is created
             tags = self.summary.get(cp, set())
             if tags:
                 out.append(Event(bb, i, tags, [], "closure " + cp, callee=cp, line=None))
